@@ -52,12 +52,14 @@ def body(run):
         run.selftest(out, meta, gen="conc", dfs=True, field="ok", remove_match={"ev": "Inv"})
         run.selftest(out, meta, gen="held", dfs=True, field="ok", remove_match={"ev": "Inv"})
     run.assumptions += [
-        "elements are [producer, seq] pairs; results are projected by the harness with the Go standard library only",
+        "elements are [producer, seq] pairs put as struct values, pointers or nothing-like values ([producer, seq, tag]: nil interface, typed nil pointer, empty struct, zero int, empty string, nil slice, false); what comes out of the queue is compared as the VALUE seen (a nothing-like value carries no identity: FIFO order decides which element it is); results are projected by the harness with the Go standard library only",
+        "named deviation NilSwallowed (modelled as the code behaves): GetTimeout polls with GetNoWait and reads nil as 'nothing yet': a nil interface value it draws is removed, handed to nobody, and the call polls on; a timed get is therefore logged as Inv/Ret and each poll is a silent step",
+        "callback-held schedules: the callback is released when the other goroutines have returned or after a bounded wait (12-30 ms); if the other goroutine does not reach the lock in that time the overlap (and detection) is lost, the history is judged all the same",
         "the order of invocation/response events is the order of appends to one mutex-protected log (stamp before the call, stamp after the return); no wall-clock ordering across goroutines",
         "concurrent histories are validated at the level of linearizable calls (each call takes effect atomically between its invocation and response); the wait/broadcast mechanism itself is model-checked in MC_ReqQueue and bound to the code by the stranded-consumer schedules",
         "a timed get's start/end are read from the same millisecond wall clock the queue reads (time.Now().UnixMilli()), start before the call, end after the return, so `el >= T` for an empty-handed return is exact; no upper bound on any duration is asserted",
         "a call that has not returned 10 s after the last progress while elements keep being supplied is reported as stranded (Timeout)",
         "the double queue's callback fields are private and have no setter in golib: the harness installs them by reflection; 'parked in Get' is read from sync.Cond's wait list by reflection (fallback: a pause)",
-        "SetCapacity and Size are only exercised while no other call is in flight (they take no lock: data races are C10's subject); callbacks do not re-enter the queue",
+        "SetCapacity is only exercised while no other call is in flight (it takes no lock: data races are C10's subject); Size/Size1/Size2 are also read concurrently (they take the lock: linearizable reads); callbacks do not re-enter the queue",
         "per-call overflow-callback arguments are compared in sequential histories; in concurrent histories the complete callback logs are compared in callback order at the end of the history, and a refused element is attributed to its own Put",
     ]
